@@ -33,6 +33,7 @@ long cfg_get(const char* key, long dflt) {
 enum { GS_NONE = 0, GS_SAVED, GS_RUNNING, GS_SWITCHING_OUT, GS_DESTROYED };
 typedef struct grec {
   fiber_t* f;
+  int sched_thread;
   int state;
   int on_thread;
   int pending;
@@ -98,6 +99,13 @@ static const char* gs_name(int s) {
   return "UNKNOWN";
 }
 
+static int g_maint_marker;
+static long g_steal_count, g_early_count;
+long g_steals(void) { return g_steal_count; }
+long g_early_wakes(void) { return g_early_count; }
+void rt_nontrivial(const char* name) {
+  if (!strcmp(g_case.harness, name)) vs_label_add("nontrivial", 1);
+}
 static int g_next_spawn = -1;
 void g_expect_spawn(int idx) { g_next_spawn = idx; }
 
@@ -154,14 +162,15 @@ void verif_scheduled(void* scheduler, struct fiber* f) {
     vs_violation("pending_wake_range", "fiber %d (%p) made runnable twice for one wake-up (state %s)", r->idx, (void*)f, gs_name(r->state));
   if (r->state == GS_RUNNING || r->state == GS_SWITCHING_OUT) {
     vs_label_add("early_wake", 1);
+    g_early_count++;
     r->early_wake_seen = 1;
   }
   gev_add(1, vs_self(), who_of(r));
+  r->sched_thread = vs_self();
   vs_progress();
   vs_rt_exit();
 }
 
-static int g_maint_marker;
 void verif_switch(struct fiber_manager* m, struct fiber* oldf, struct fiber* newf) {
   if (!vs_active()) return;
   vs_rt_enter();
@@ -183,6 +192,10 @@ void verif_switch(struct fiber_manager* m, struct fiber* oldf, struct fiber* new
     if (n->pending != 1)
       vs_violation("pending_wake_range", "fiber %d (%p) switched in with %d pending wake-ups (an entry was duplicated)", n->idx, (void*)newf, n->pending);
     n->pending = 0;
+    if (n->sched_thread != T) {
+      g_steal_count++;
+      vs_label_add("steals", 1);
+    }
     vs_progress();
   }
   o->state = GS_SWITCHING_OUT;
@@ -289,8 +302,18 @@ static void on_quiescence(void) {
   // C02: when every kernel thread has gone idle no runnable fiber remains queued
   for (int i = 0; i < GTAB; i++)
     if (gtab[i].f && gtab[i].pending && gtab[i].state != GS_DESTROYED)
-      vs_violation("runnable_never_run", "fiber %d (%p) was made runnable but no kernel thread runs it although all are idle", gtab[i].idx,
-                   (void*)gtab[i].f);
+    {
+      char buf[300];
+      size_t o = 0;
+      typedef struct { wsd_work_stealing_deque_t* q1; wsd_work_stealing_deque_t* q2; wsd_work_stealing_deque_t* from; wsd_work_stealing_deque_t* to; } dbg_sched_t;
+      for (int t = 0; t < g_case.threads; t++) {
+        dbg_sched_t* sc = (dbg_sched_t*)fiber_scheduler_for_thread((size_t)t);
+        o += snprintf(buf + o, sizeof buf - o, "T%d from[t=%ld b=%ld] to[t=%ld b=%ld]; ", t, (long)sc->from->top, (long)sc->from->bottom, (long)sc->to->top,
+                      (long)sc->to->bottom);
+      }
+      vs_violation("runnable_never_run", "fiber %d (thread_fiber=%d, sched on T%d, now on T%d, switches %d) (%p, lib state %d, ghost %s) was made runnable but no kernel thread runs it although all are idle; %s", gtab[i].idx, gtab[i].is_thread_fiber, gtab[i].sched_thread, gtab[i].on_thread, gtab[i].switches,
+                   (void*)gtab[i].f, gtab[i].f->state, gs_name(gtab[i].state), buf);
+    }
   if (g_quiescences > 4000) vs_violation("livelock", "more than 4000 quiescence rounds");
   vs_rt_exit();
   if (g_sleepers() > 0) {
@@ -639,7 +662,7 @@ int main(int argc, char** argv) {
     return 2;
   }
   uint64_t base_seed = 1;
-  int nsched = 32, tso_mode = 0, do_min = 0, stop_first = 1;
+  int nsched = 32, tso_mode = 0, do_min = 0, stop_first = 1, check_replay = 0, replay_mismatch = 0;
   const char* replay = 0;
   uint64_t replay_seed = 0;
   int replay_tso = 0;
@@ -652,6 +675,7 @@ int main(int argc, char** argv) {
     else if (!strcmp(argv[i], "--replay-tso") && i + 1 < argc) replay_tso = atoi(argv[++i]);
     else if (!strcmp(argv[i], "--minimise")) do_min = 1;
     else if (!strcmp(argv[i], "--all")) stop_first = 0;
+    else if (!strcmp(argv[i], "--check-replay")) check_replay = 1;
     else if (!strcmp(argv[i], "--soft") && i + 1 < argc) g_soft = strtoull(argv[++i], 0, 10);
     else if (!strcmp(argv[i], "--hard") && i + 1 < argc) g_hard = strtoull(argv[++i], 0, 10);
     else if (!strcmp(argv[i], "--wall") && i + 1 < argc) g_wall_limit = atof(argv[++i]);
@@ -746,6 +770,36 @@ int main(int argc, char** argv) {
         if (hashes[k] == shres->trace_hash) dup = 1;
       if (!dup && n_hashes < 4096) hashes[n_hashes++] = shres->trace_hash;
     }
+    if (check_replay && !shres->decisions_overflow) {
+      // replay fidelity: the recorded decision list must reproduce the execution exactly
+      vs_result_t* first = malloc(sizeof *first);
+      memcpy(first, shres, sizeof *first);
+      vs_config_t rc;
+      memset(&rc, 0, sizeof rc);
+      rc.seed = c.seed;
+      rc.strategy = VS_STRAT_REPLAY;
+      rc.tso = c.tso;
+      rc.soft_budget = g_soft;
+      rc.hard_budget = g_hard;
+      rc.n_replay = (int)first->n_decisions;
+      rc.replay_points = first->dec_point;
+      rc.replay_tids = first->dec_tid;
+      int st2 = run_one(&rc);
+      if (st2 != st || shres->points != first->points || shres->trace_hash != first->trace_hash || strcmp(shres->kind, first->kind)) {
+        replay_mismatch++;
+        if (getenv("VS_DBG")) {
+          uint32_t k = 0;
+          while (k < first->n_decisions && k < shres->n_decisions && first->dec_point[k] == shres->dec_point[k] && first->dec_tid[k] == shres->dec_tid[k]) k++;
+          fprintf(stderr, "  first divergence at decision %u of %u/%u: orig (%u,%u) replay (%u,%u); prev (%u,%u)\n", k, first->n_decisions, shres->n_decisions,
+                  k < first->n_decisions ? first->dec_point[k] : 0, k < first->n_decisions ? first->dec_tid[k] : 0, k < shres->n_decisions ? shres->dec_point[k] : 0,
+                  k < shres->n_decisions ? shres->dec_tid[k] : 0, k ? first->dec_point[k - 1] : 0, k ? first->dec_tid[k - 1] : 0);
+        }
+        fprintf(stderr, "replay mismatch: sched %d (%s) status %d/%d points %llu/%llu kind '%s'/'%s'\n", i, sname, st, st2,
+                (unsigned long long)first->points, (unsigned long long)shres->points, first->kind, shres->kind);
+      }
+      memcpy(shres, first, sizeof *first);
+      free(first);
+    }
     if (st == 2 && !have_violation) {
       have_violation = 1;
       memcpy(vres, shres, sizeof *vres);
@@ -763,7 +817,7 @@ int main(int argc, char** argv) {
   for (int i = 0; i < n_labels; i++) printf("%s\"%s\":[%llu,%llu]", i ? "," : "", labels[i].name, (unsigned long long)labels[i].sum, (unsigned long long)labels[i].runs_with);
   printf("},\"strategies\":{");
   for (int i = 0; i < n_strat; i++) printf("%s\"%s\":%llu", i ? "," : "", strat[i].name, (unsigned long long)strat[i].sum);
-  printf("},\"violation\":");
+  printf("},\"replay_mismatch\":%d,\"violation\":", replay_mismatch);
   if (have_violation)
     print_violation(stdout, vres, &vcfg, vidx, vsname);
   else
